@@ -6,9 +6,12 @@ sys.path.insert(0, os.path.join(HERE, 'lib')); sys.path.insert(0, os.path.join(H
 ALL = ['C%02d' % i for i in range(1, 21)]
 NOT_YET = 'check not built yet in this round; the plan is in DESIGN.md section 5 (to be claimed when its model, theorems and correspondence harness exist)'
 checks = []; na = []
+HOLD = json.load(open(os.path.join(HERE, 'checks', 'HOLD.json'))) if os.path.exists(os.path.join(HERE, 'checks', 'HOLD.json')) else {}
 for pid in ALL:
     m = importlib.import_module(pid) if os.path.exists(os.path.join(HERE, 'checks', pid + '.py')) else None
-    if m is not None and getattr(m, 'READY', False):
+    if pid in HOLD:
+        na.append(dict(property_id=pid, reason=HOLD[pid]))
+    elif m is not None and getattr(m, 'READY', False):
         mf = getattr(m, 'MANIFEST', {})
         checks.append(dict(
             property_id=pid,
